@@ -149,15 +149,27 @@ func ethOracleFor(c *hx.Ctx, buf []byte, start uint64, in *input) *ethOracle {
 	return o
 }
 
-func (o *ethOracle) coq() string {
+func (o *ethOracle) coq(buf []byte) string {
 	if !o.reached || o.rlpErr {
 		return "None"
 	}
-	return fmt.Sprintf("(Some (mkEorc %s %s %d %s %d %s %s %s))", hx.CoqBytes(o.code), hx.CoqBytes(o.enc), o.nonce,
+	return fmt.Sprintf("(Some (ERef %s %s %d %s %d %s %s %s))", ref(buf, o.code), ref(buf, o.enc), o.nonce,
 		hx.CoqNBig(o.gasPrice), o.gas, hx.CoqOpt(o.sender != nil, hx.CoqBytes(o.sender)), hx.CoqBytes(o.sighash), hx.CoqBytes(o.hash))
 }
 
 // ---------- projection of an accepted transaction ----------
+
+// ref prints a byte string of the outcome as a reference into buf when it occurs there
+// (the decoder is zero-copy), else as a literal.
+func ref(buf, data []byte) string {
+	if len(data) == 0 {
+		return "(Lit [])"
+	}
+	if i := bytes.Index(buf, data); i >= 0 {
+		return fmt.Sprintf("(Sl %d %d)", i, len(data))
+	}
+	return "(Lit " + hx.CoqBytes(data) + ")"
+}
 
 func deployFlags(dc *payload.DeployCode) byte {
 	sink := common.NewZeroCopySink(nil)
@@ -166,13 +178,13 @@ func deployFlags(dc *payload.DeployCode) byte {
 	return dc.ToArray()[n]
 }
 
-func coqPayload(tx *types.Transaction) string {
+func coqPayload(buf []byte, tx *types.Transaction) string {
 	switch p := tx.Payload.(type) {
 	case *payload.InvokeCode:
-		return fmt.Sprintf("(OInvoke %s)", hx.CoqBytes(p.Code))
+		return fmt.Sprintf("(OInvoke %s)", ref(buf, p.Code))
 	case *payload.DeployCode:
-		return fmt.Sprintf("(ODeploy %s %d %s %s %s %s %s)", hx.CoqBytes(p.GetRawCode()), deployFlags(p), hx.CoqBytes([]byte(p.Name)),
-			hx.CoqBytes([]byte(p.Version)), hx.CoqBytes([]byte(p.Author)), hx.CoqBytes([]byte(p.Email)), hx.CoqBytes([]byte(p.Description)))
+		return fmt.Sprintf("(ODeploy %s %d %s %s %s %s %s)", ref(buf, p.GetRawCode()), deployFlags(p), ref(buf, []byte(p.Name)),
+			ref(buf, []byte(p.Version)), ref(buf, []byte(p.Author)), ref(buf, []byte(p.Email)), ref(buf, []byte(p.Description)))
 	case *payload.EIP155Code:
 		return "OEip"
 	}
@@ -300,14 +312,18 @@ func evalDeser(c *hx.Ctx, in *input, emit bool) *result {
 		} else {
 			var sg []string
 			for _, s := range tx.Sigs {
-				sg = append(sg, fmt.Sprintf("(%s, %s)", hx.CoqBytes(s.Invoke), hx.CoqBytes(s.Verify)))
+				sg = append(sg, fmt.Sprintf("(%s, %s)", ref(buf, s.Invoke), ref(buf, s.Verify)))
 			}
 			hp := res.hpre
 			if hp < 0 {
 				hp = 0
 			}
+			hashLit := "[]"
+			if tx.TxType == types.EIP155 || in.Real {
+				hashLit = hx.CoqBytes(res.hash[:])
+			}
 			out = fmt.Sprintf("(OTx %d %d %d %d %d %s %s %s %s %d %s)", tx.Version, byte(tx.TxType), tx.Nonce, tx.GasPrice, tx.GasLimit,
-				hx.CoqBytes(tx.Payer[:]), coqPayload(tx), hx.CoqList(sg), hx.CoqBytes(tx.Raw), hp, hx.CoqBytes(res.hash[:]))
+				hx.CoqBytes(tx.Payer[:]), coqPayload(buf, tx), hx.CoqList(sg), ref(buf, tx.Raw), hp, hashLit)
 		}
 	}
 	if viaRaw && len(buf) > types.MAX_TX_SIZE && err == nil {
@@ -322,9 +338,9 @@ func evalDeser(c *hx.Ctx, in *input, emit bool) *result {
 	case in.Kind == "big":
 		c.Case(fmt.Sprintf("CDeserBig %s %d %d %s %d %s %d", hx.CoqBytes(hx.UnHex(in.Pre)), in.Fill, in.N, hx.CoqBytes(hx.UnHex(in.Suf)), in.Start, out, pos), in)
 	case in.Kind == "raw":
-		c.Case(fmt.Sprintf("CRaw %s %s %s", hx.CoqBytes(buf), eo.coq(), out), in)
+		c.Case(fmt.Sprintf("CRaw %s %s %s", hx.CoqBytes(buf), eo.coq(buf), out), in)
 	default:
-		c.Case(fmt.Sprintf("CDeser %s %s %d %s %s %d", hx.CoqBool(in.Real), hx.CoqBytes(buf), in.Start, eo.coq(), out, pos), in)
+		c.Case(fmt.Sprintf("CDeser %s %s %d %s %s %d", hx.CoqBool(in.Real), hx.CoqBytes(buf), in.Start, eo.coq(buf), out, pos), in)
 	}
 	if len(buf) > 2 {
 		c.Nontrivial(in.Kind + in.Buf + in.Pre + fmt.Sprint(in.Start, in.N))
@@ -430,8 +446,9 @@ func evalMut(c *hx.Ctx, m *types.MutableTransaction) {
 		return
 	}
 	c.Count("mut:ok")
+	arr := tx.ToArray()
 	c.Case(fmt.Sprintf("CMut %d %d %d %d %d %s %s %s", m.Version, byte(m.TxType), m.Nonce, m.GasPrice, m.GasLimit, hx.CoqBytes(m.Payer[:]),
-		coqPayload(tx), hx.CoqBytes(tx.ToArray())), map[string]string{"kind": "mut", "buf": hx.Hex(tx.ToArray())})
+		coqPayload(arr, tx), hx.CoqBytes(arr)), map[string]string{"kind": "mut", "buf": hx.Hex(arr)})
 }
 
 func jsonUnmarshal(raw json.RawMessage, v interface{}) error { return json.Unmarshal(raw, v) }
